@@ -1276,7 +1276,572 @@ func init() {
 			emitStrs("forCounterShape", "`kfArrayFor`: every assignment to the round counter `idx`", shape, len(loops) == 1)
 		}
 
+		// ---- {@range}: EVERY statement of the run-time closure and every arithmetic expression in it.  The loop
+		// fragments above pin the loop; a statement added next to it (a pre-sizing `sb.Grow((stop-start)/incr)`
+		// whose difference wraps for a span beyond MaxInt64) is a new line here.
+		{
+			fd := c.Func(rng, "kfArrayRange")
+			body := c08Closure(fd)
+			var shape, ar []string
+			for _, s := range body {
+				shape = append(shape, c.c08StmtLine(s))
+			}
+			for _, s := range c08SitesOf(c, body, true) {
+				ar = append(ar, s[0]+": "+s[1])
+			}
+			emitStrs("rangeClosureShape", "`kfArrayRange`: the statements of the run-time closure in order (blocks abbreviated)", shape, len(body) > 0)
+			emitStrs("rangeArith", "`kfArrayRange`: every arithmetic expression, division, index, slice and sizing call of the run-time closure", ar, len(body) > 0)
+		}
+
+		// ---- the census of operations that can panic (or whose wrap-around feeds one), per anchor file of the
+		// property: divisions and remainders by a non-constant, shifts by a non-constant, index and slice
+		// expressions, sizing calls (`Grow`, `make`, `strings.Repeat`), explicit `panic`, unchecked type
+		// assertions, and sums / differences / products of two non-constant operands.  Props/C08 names, for
+		// every line, the guard that makes it safe; a line that appears, disappears or changes breaks that
+		// theorem.
+		{
+			var lines []string
+			okAll := true
+			for _, rel := range c08CensusFiles {
+				f := c.File(rel)
+				if f == nil {
+					okAll = false
+					continue
+				}
+				base := rel[strings.LastIndex(rel, "/")+1:]
+				for _, d := range f.Decls {
+					fd, ok := d.(*ast.FuncDecl)
+					if !ok || fd.Body == nil {
+						continue
+					}
+					name := fd.Name.Name
+					if fd.Recv != nil && len(fd.Recv.List) > 0 {
+						t := fd.Recv.List[0].Type
+						if st, ok := t.(*ast.StarExpr); ok {
+							t = st.X
+						}
+						if ix, ok := t.(*ast.IndexExpr); ok {
+							t = ix.X
+						}
+						if id, ok := t.(*ast.Ident); ok {
+							name = id.Name + "." + name
+						}
+					}
+					for _, s := range c08SitesOf(c, fd.Body.List, false) {
+						lines = append(lines, base+" "+name+" "+s[0]+": "+s[1])
+					}
+				}
+				// package-level function literals (the operation tables of funcs.go / stdmath)
+				for _, d := range f.Decls {
+					gd, ok := d.(*ast.GenDecl)
+					if !ok || gd.Tok != token.VAR {
+						continue
+					}
+					for _, sp := range gd.Specs {
+						vs, ok := sp.(*ast.ValueSpec)
+						if !ok {
+							continue
+						}
+						for i, v := range vs.Values {
+							nm := "var"
+							if i < len(vs.Names) {
+								nm = vs.Names[i].Name
+							}
+							for _, s := range c08SitesOf(c, []ast.Stmt{&ast.ExprStmt{X: v}}, false) {
+								lines = append(lines, base+" "+nm+" "+s[0]+": "+s[1])
+							}
+						}
+					}
+				}
+			}
+			if !okAll {
+				sb.WriteString(untranslatable("panicSites"))
+			} else {
+				fmt.Fprintf(&sb, "/-- every operation of the anchor files that can panic or wrap (file function kind: expression), in source order -/\ndef panicSites : List String := [%s]\n\n", strings.Join(c08LeanStrs(lines), ",\n  "))
+			}
+		}
+
+		// ---- Splitter.Next: the bounds of `s.S[s.next:idx]` and the new `s.next` from the position `idx` that
+		// strings.Index found in the remainder
+		{
+			const sp = "pkg/stringSplitter/splitter.go"
+			c.Fingerprint(sp, "Splitter.Next")
+			fd := c.Func(sp, "Splitter.Next")
+			t := newC08tr(c, []string{"next", "idx", "lenDelim"}, map[string]string{"s.next": "next", "len(s.Delim)": "lenDelim"})
+			res := "(0, 0, 0)"
+			var shape []string
+			if fd == nil || fd.Body == nil {
+				t.fail("function Splitter.Next not found")
+			} else {
+				t.stmts(fd.Body.List, map[string]bool{"idx": true}, "", nil)
+				lo, hi, nx := "", "", ""
+				for _, s := range fd.Body.List {
+					shape = append(shape, c.c08StmtLine(s))
+					as, ok := s.(*ast.AssignStmt)
+					if !ok || len(as.Lhs) != 1 || len(as.Rhs) != 1 {
+						continue
+					}
+					if se, ok := as.Rhs[0].(*ast.SliceExpr); ok && c.Print(se.X) == "s.S" && se.Low != nil && se.High != nil && !se.Slice3 {
+						lo, hi = t.expr(se.Low), t.expr(se.High)
+					}
+					if c.Print(as.Lhs[0]) == "s.next" && as.Tok == token.ASSIGN {
+						nx = t.expr(as.Rhs[0])
+					}
+				}
+				if lo == "" || nx == "" {
+					t.fail("no `ret = s.S[lo:hi]` / `s.next = …` at the top level of Splitter.Next")
+				}
+				res = fmt.Sprintf("(%s, %s, %s)", lo, hi, nx)
+			}
+			emitDef("splitterNext", "`Splitter.Next`, the delimiter found at `idx` of the remainder: the bounds of the returned slice of `s.S` and the new `s.next`", []string{"next", "idx", "lenDelim"}, "", "Int × Int × Int", t, res)
+			emitStrs("splitterNextShape", "`Splitter.Next`: the statements in order (blocks abbreviated)", shape, fd != nil)
+		}
+
+		// ---- `args[k]` with a literal index: the lower bound of `len(args)` that the enclosing arity checks
+		// establish at that point (function, k, bound) - over every file of the helper library
+		{
+			var parts []string
+			okAll := true
+			for _, rel := range c08StdlibFiles {
+				f := c.File(rel)
+				if f == nil {
+					okAll = false
+					continue
+				}
+				base := rel[strings.LastIndex(rel, "/")+1:]
+				for _, d := range f.Decls {
+					fd, ok := d.(*ast.FuncDecl)
+					if !ok || fd.Body == nil {
+						continue
+					}
+					for _, sl := range []string{"args", "s.stages"} {
+						w := &c08ArgWalk{c: c, base: sl}
+						w.stmts(fd.Body.List, 0)
+						nm := base + " " + fd.Name.Name
+						if sl != "args" {
+							nm += " " + sl
+						}
+						for _, a := range w.out {
+							parts = append(parts, fmt.Sprintf("(%s, %d, %d)", leanStr(nm), a[0], a[1]))
+						}
+					}
+				}
+			}
+			if !okAll || len(parts) == 0 {
+				sb.WriteString(untranslatable("argIndexes"))
+			} else {
+				fmt.Fprintf(&sb, "/-- every `args[k]` with a literal `k` in the helper library: (function, k, the lower bound of `len(args)` established by the enclosing arity checks) -/\ndef argIndexes : List (String × Nat × Nat) := [%s]\n\n", strings.Join(parts, ",\n  "))
+			}
+		}
+
 		sb.WriteString("end Rare.Gen.C08\n")
 		return sb.String()
 	})
+}
+
+// c08CensusFiles: the anchor files of the property whose operations are listed in `panicSites`.
+var c08CensusFiles = []string{
+	"pkg/expressions/keyBuilder.go", "pkg/expressions/argSplitter.go",
+	"pkg/expressions/stdlib/funcs.go", "pkg/expressions/stdlib/funcsArithmatic.go", "pkg/expressions/stdlib/funcsStrings.go",
+	"pkg/expressions/stdlib/funcsRange.go", "pkg/expressions/stdlib/drawing.go", "pkg/expressions/stdlib/funcsCommon.go",
+	"pkg/expressions/stdlib/funcsMath.go", "pkg/expressions/stdlib/errors.go", "pkg/expressions/stdlib/util.go",
+	"pkg/expressions/stdmath/ops.go", "pkg/stringSplitter/splitter.go",
+}
+
+func c08LeanStrs(l []string) []string {
+	out := make([]string, len(l))
+	for i, s := range l {
+		out[i] = leanStr(s)
+	}
+	return out
+}
+
+// c08StmtLine: one statement as a line; the bodies of compound statements are abbreviated.
+func (c *Ctx) c08StmtLine(s ast.Stmt) string {
+	switch v := s.(type) {
+	case *ast.IfStmt:
+		line := "if " + c.Print(v.Cond)
+		if v.Init != nil {
+			line = "if " + c.Print(v.Init) + "; " + c.Print(v.Cond)
+		}
+		if len(v.Body.List) == 1 {
+			if _, ok := v.Body.List[0].(*ast.ReturnStmt); ok {
+				line += " { " + c.Print(v.Body.List[0]) + " }"
+			}
+		}
+		if v.Else != nil {
+			line += " else …"
+		}
+		return line
+	case *ast.ForStmt:
+		return "for " + c08PrintOpt(c, v.Init) + "; " + c08PrintOptE(c, v.Cond) + "; " + c08PrintOpt(c, v.Post)
+	case *ast.RangeStmt:
+		return "for range " + c.Print(v.X)
+	case *ast.SwitchStmt, *ast.TypeSwitchStmt, *ast.SelectStmt, *ast.BlockStmt:
+		return fmt.Sprintf("%T", s)
+	}
+	return strings.Join(strings.Fields(c.Print(s)), " ")
+}
+
+func c08PrintOpt(c *Ctx, s ast.Stmt) string {
+	if s == nil {
+		return ""
+	}
+	return c.Print(s)
+}
+
+func c08PrintOptE(c *Ctx, e ast.Expr) string {
+	if e == nil {
+		return ""
+	}
+	return c.Print(e)
+}
+
+// c08IsLit: a literal constant (possibly signed / parenthesised).
+func c08IsLit(e ast.Expr) bool {
+	switch v := e.(type) {
+	case *ast.BasicLit:
+		return true
+	case *ast.ParenExpr:
+		return c08IsLit(v.X)
+	case *ast.UnaryExpr:
+		return (v.Op == token.SUB || v.Op == token.ADD) && c08IsLit(v.X)
+	}
+	return false
+}
+
+// c08NonZeroLit: an integer or float literal other than zero.
+func c08NonZeroLit(e ast.Expr) bool {
+	if !c08IsLit(e) {
+		return false
+	}
+	if n, ok := IntLit(e); ok {
+		return n != 0
+	}
+	if bl, ok := e.(*ast.BasicLit); ok && bl.Kind == token.FLOAT {
+		return strings.Trim(bl.Value, "0.") != ""
+	}
+	return false
+}
+
+// c08SitesOf lists (kind, printed expression) of the operations of interest inside the statements, in
+// source order.  `all` also lists sums / differences / products with a literal operand and `x++`.
+func c08SitesOf(c *Ctx, body []ast.Stmt, all bool) [][2]string {
+	var out [][2]string
+	one := func(e ast.Node) string { return strings.Join(strings.Fields(c.Print(e)), " ") }
+	checked := map[ast.Node]bool{} // type assertions in comma-ok form / type switches
+	for _, s := range body {
+		ast.Inspect(s, func(n ast.Node) bool {
+			switch v := n.(type) {
+			case *ast.AssignStmt:
+				if len(v.Lhs) == 2 && len(v.Rhs) == 1 {
+					if ta, ok := v.Rhs[0].(*ast.TypeAssertExpr); ok {
+						checked[ta] = true
+					}
+				}
+			case *ast.ValueSpec:
+				if len(v.Names) == 2 && len(v.Values) == 1 {
+					if ta, ok := v.Values[0].(*ast.TypeAssertExpr); ok {
+						checked[ta] = true
+					}
+				}
+			}
+			return true
+		})
+	}
+	for _, s := range body {
+		ast.Inspect(s, func(n ast.Node) bool {
+			switch v := n.(type) {
+			case *ast.BinaryExpr:
+				switch v.Op {
+				case token.QUO, token.REM:
+					if !c08NonZeroLit(v.Y) {
+						out = append(out, [2]string{"div", one(v)})
+					}
+				case token.SHL, token.SHR:
+					if !c08IsLit(v.Y) {
+						out = append(out, [2]string{"shift", one(v)})
+					}
+				case token.ADD, token.SUB, token.MUL:
+					if _, isStr := StringLit(v.X); isStr {
+						break
+					}
+					if _, isStr := StringLit(v.Y); isStr {
+						break
+					}
+					if all || (!c08IsLit(v.X) && !c08IsLit(v.Y)) {
+						out = append(out, [2]string{"arith", one(v)})
+					}
+				}
+			case *ast.AssignStmt:
+				switch v.Tok {
+				case token.QUO_ASSIGN, token.REM_ASSIGN:
+					if len(v.Rhs) == 1 && !c08NonZeroLit(v.Rhs[0]) {
+						out = append(out, [2]string{"div", one(v)})
+					}
+				case token.SHL_ASSIGN, token.SHR_ASSIGN:
+					if len(v.Rhs) == 1 && !c08IsLit(v.Rhs[0]) {
+						out = append(out, [2]string{"shift", one(v)})
+					}
+				case token.ADD_ASSIGN, token.SUB_ASSIGN, token.MUL_ASSIGN:
+					if len(v.Rhs) == 1 {
+						if _, isStr := StringLit(v.Rhs[0]); isStr {
+							break
+						}
+						if all || !c08IsLit(v.Rhs[0]) {
+							out = append(out, [2]string{"arith", one(v)})
+						}
+					}
+				}
+			case *ast.IncDecStmt:
+				if all {
+					out = append(out, [2]string{"arith", one(v)})
+				}
+			case *ast.IndexExpr:
+				// `args[2]` with a literal index is behind the arity check of its builder (listed apart: `argIndexes`)
+				if id, isId := v.X.(*ast.Ident); isId && id.Name == "args" && c08IsLit(v.Index) {
+					break
+				}
+				if _, isStr := StringLit(v.Index); !isStr {
+					out = append(out, [2]string{"index", one(v)})
+				}
+			case *ast.SliceExpr:
+				out = append(out, [2]string{"slice", one(v)})
+			case *ast.TypeAssertExpr:
+				if v.Type != nil && !checked[v] {
+					out = append(out, [2]string{"assert", one(v)})
+				}
+			case *ast.CallExpr:
+				fn := c.Print(v.Fun)
+				switch {
+				case strings.HasSuffix(fn, ".Grow"), fn == "strings.Repeat", fn == "bytes.Repeat", fn == "panic":
+					out = append(out, [2]string{"size", one(v)})
+				case fn == "make" && len(v.Args) >= 2:
+					out = append(out, [2]string{"size", one(v)})
+				}
+			}
+			return true
+		})
+	}
+	return out
+}
+
+// c08StdlibFiles: every non-test file of pkg/expressions/stdlib (the helper library), and the compiler.
+var c08StdlibFiles = []string{"builder.go", "drawing.go", "errors.go", "funcs.go", "funcsArithmatic.go", "funcsCommon.go", "funcsComparators.go",
+	"funcsCsv.go", "funcsJson.go", "funcsLookups.go", "funcsMath.go", "funcsPath.go", "funcsRange.go", "funcsStrings.go", "funcsTime.go",
+	"funcsType.go", "stages.go", "stagesStaticEval.go", "stagesTypedEval.go", "util.go"}
+
+func init() {
+	for i, f := range c08StdlibFiles {
+		c08StdlibFiles[i] = "pkg/expressions/stdlib/" + f
+	}
+	c08StdlibFiles = append(c08StdlibFiles, "pkg/expressions/keyBuilder.go")
+}
+
+// c08ArgWalk walks a function body keeping the lower bound of `len(args)` implied by the arity checks passed
+// so far: `if len(args) != 2 { return … }`, `if !isArgCountBetween(args, 1, 3) { return … }`,
+// `if len(args) >= 3 { … }`, `switch len(args) { case 2: … }`.
+type c08ArgWalk struct {
+	c    *Ctx
+	base string   // the indexed slice as printed (`args`, `s.stages`)
+	out  [][2]int // (literal index, bound)
+}
+
+// lenArgsCmp: e is `len(args) <op> <int literal>`.
+func (w *c08ArgWalk) lenArgsCmp(e ast.Expr) (token.Token, int, bool) {
+	be, ok := e.(*ast.BinaryExpr)
+	if !ok || w.c.Print(be.X) != "len("+w.base+")" {
+		return 0, 0, false
+	}
+	n, ok := IntLit(be.Y)
+	return be.Op, int(n), ok
+}
+
+// whenTrue / whenFalse: the lower bound of len(args) implied by the condition being true / false.
+func (w *c08ArgWalk) whenTrue(e ast.Expr) int {
+	switch v := e.(type) {
+	case *ast.ParenExpr:
+		return w.whenTrue(v.X)
+	case *ast.UnaryExpr:
+		if v.Op == token.NOT {
+			return w.whenFalse(v.X)
+		}
+	case *ast.CallExpr:
+		if w.c.Print(v.Fun) == "isArgCountBetween" && len(v.Args) == 3 && w.c.Print(v.Args[0]) == "args" {
+			if n, ok := IntLit(v.Args[1]); ok {
+				return int(n)
+			}
+		}
+	case *ast.BinaryExpr:
+		if v.Op == token.LAND {
+			return max(w.whenTrue(v.X), w.whenTrue(v.Y))
+		}
+		if v.Op == token.LOR {
+			return min(w.whenTrue(v.X), w.whenTrue(v.Y))
+		}
+		if op, n, ok := w.lenArgsCmp(v); ok {
+			switch op {
+			case token.GEQ, token.EQL:
+				return n
+			case token.GTR:
+				return n + 1
+			case token.NEQ:
+				if n == 0 {
+					return 1
+				}
+			}
+		}
+	}
+	return 0
+}
+
+func (w *c08ArgWalk) whenFalse(e ast.Expr) int {
+	switch v := e.(type) {
+	case *ast.ParenExpr:
+		return w.whenFalse(v.X)
+	case *ast.UnaryExpr:
+		if v.Op == token.NOT {
+			return w.whenTrue(v.X)
+		}
+	case *ast.BinaryExpr:
+		if v.Op == token.LOR {
+			return max(w.whenFalse(v.X), w.whenFalse(v.Y))
+		}
+		if v.Op == token.LAND {
+			return min(w.whenFalse(v.X), w.whenFalse(v.Y))
+		}
+		if op, n, ok := w.lenArgsCmp(v); ok {
+			switch op {
+			case token.LSS, token.NEQ:
+				return n
+			case token.LEQ:
+				return n + 1
+			case token.EQL:
+				if n == 0 {
+					return 1
+				}
+			}
+		}
+	}
+	return 0
+}
+
+func c08Terminates(b *ast.BlockStmt) bool {
+	if b == nil || len(b.List) == 0 {
+		return false
+	}
+	switch v := b.List[len(b.List)-1].(type) {
+	case *ast.ReturnStmt:
+		return true
+	case *ast.ExprStmt:
+		if call, ok := v.X.(*ast.CallExpr); ok {
+			if id, ok := call.Fun.(*ast.Ident); ok && id.Name == "panic" {
+				return true
+			}
+		}
+	}
+	return false
+}
+
+// node records the literal accesses inside an expression / simple statement; function literals are walked
+// as statement lists under the same bound (the closure sees the same `args`).
+func (w *c08ArgWalk) node(n ast.Node, lb int) {
+	if n == nil {
+		return
+	}
+	ast.Inspect(n, func(x ast.Node) bool {
+		switch v := x.(type) {
+		case *ast.FuncLit:
+			w.stmts(v.Body.List, lb)
+			return false
+		case *ast.IndexExpr:
+			if w.c.Print(v.X) == w.base {
+				if k, ok := IntLit(v.Index); ok {
+					w.out = append(w.out, [2]int{int(k), lb})
+				}
+			}
+		}
+		return true
+	})
+}
+
+func (w *c08ArgWalk) stmts(list []ast.Stmt, lb int) int {
+	for _, s := range list {
+		lb = w.stmt(s, lb)
+	}
+	return lb
+}
+
+// stmt returns the bound that holds after the statement.
+func (w *c08ArgWalk) stmt(s ast.Stmt, lb int) int {
+	switch v := s.(type) {
+	case *ast.BlockStmt:
+		return w.stmts(v.List, lb)
+	case *ast.IfStmt:
+		if v.Init != nil {
+			lb = w.stmt(v.Init, lb)
+		}
+		w.node(v.Cond, lb)
+		w.stmts(v.Body.List, max(lb, w.whenTrue(v.Cond)))
+		elb := max(lb, w.whenFalse(v.Cond))
+		if v.Else != nil {
+			w.stmt(v.Else, elb)
+			return lb
+		}
+		if c08Terminates(v.Body) {
+			return elb
+		}
+		return lb
+	case *ast.SwitchStmt:
+		if v.Init != nil {
+			lb = w.stmt(v.Init, lb)
+		}
+		isLen := v.Tag != nil && w.c.Print(v.Tag) == "len("+w.base+")"
+		if v.Tag != nil {
+			w.node(v.Tag, lb)
+		}
+		for _, cs := range v.Body.List {
+			cc, ok := cs.(*ast.CaseClause)
+			if !ok {
+				continue
+			}
+			clb := lb
+			if isLen && len(cc.List) > 0 {
+				m := -1
+				for _, e := range cc.List {
+					if n, ok := IntLit(e); ok && (m < 0 || int(n) < m) {
+						m = int(n)
+					} else if !ok {
+						m = 0
+					}
+				}
+				clb = max(lb, m)
+			} else {
+				for _, e := range cc.List {
+					w.node(e, lb)
+				}
+			}
+			w.stmts(cc.Body, clb)
+		}
+		return lb
+	case *ast.ForStmt:
+		if v.Init != nil {
+			w.stmt(v.Init, lb)
+		}
+		w.node(v.Cond, lb)
+		if v.Post != nil {
+			w.stmt(v.Post, lb)
+		}
+		w.stmts(v.Body.List, lb)
+		return lb
+	case *ast.RangeStmt:
+		w.node(v.X, lb)
+		w.stmts(v.Body.List, lb)
+		return lb
+	case *ast.TypeSwitchStmt, *ast.SelectStmt:
+		w.node(s, lb)
+		return lb
+	}
+	w.node(s, lb)
+	return lb
 }
